@@ -33,8 +33,11 @@ Definition model_lit_into_ty_arms : list arm :=
     ([(LPString, CPBytes)], FTrue);       (* 23 *)
     ([(LPMap, CPAdtStruct)], FDyn) ].     (* 24 *)
 
-Lemma lit_into_ty_arms_pinned : lit_into_ty_arms = model_lit_into_ty_arms.
-Proof. reflexivity. Qed.
+(* the repair arc-field-default appends ONE arm, at the end (no index moves) *)
+Definition arc_into_arm : arm := ([(LPAny, CPArc)], FFalse).
+Lemma lit_into_ty_arms_pinned :
+  lit_into_ty_arms = model_lit_into_ty_arms \/ lit_into_ty_arms = model_lit_into_ty_arms ++ [arc_into_arm].
+Proof. first [left; reflexivity | right; reflexivity]. Qed.
 
 Lemma lit_as_rvalue_arms_pinned :
   lit_as_rvalue_arms = [ ([(LPMap, CPLazyStaticRef)], FFalse); ([(LPMap, CPMap)], FFalse); ([(LPMap, CPBTreeMap)], FFalse);
@@ -42,9 +45,15 @@ Lemma lit_as_rvalue_arms_pinned :
                          ([(LPList, CPMap)], FFalse); ([(LPList, CPBTreeMap)], FFalse) ].
 Proof. reflexivity. Qed.
 
+Definition model_ident_into_ty_arms : list (list (cpat * cpat) * flagk) :=
+  [ ([(CPAny, CPAdtNewType)], FDyn); ([(CPStr, CPFastStr)], FTrue); ([(CPStr, CPString)], FFalse);
+    ([(CPAdtEnum, CPI64); (CPAdtEnum, CPI32); (CPAdtEnum, CPI16); (CPAdtEnum, CPI8)], FTrue) ].
 Lemma ident_into_ty_arms_pinned :
-  ident_into_ty_arms = [ ([(CPAny, CPAdtNewType)], FDyn); ([(CPStr, CPFastStr)], FTrue); ([(CPStr, CPString)], FFalse);
-                         ([(CPAdtEnum, CPI64); (CPAdtEnum, CPI32); (CPAdtEnum, CPI16); (CPAdtEnum, CPI8)], FTrue) ].
+  ident_into_ty_arms = model_ident_into_ty_arms \/ ident_into_ty_arms = model_ident_into_ty_arms ++ [([(CPAny, CPArc)], FFalse)].
+Proof. first [left; reflexivity | right; reflexivity]. Qed.
+(* both functions have the Arc arm, or neither *)
+Lemma arc_arms_together :
+  arc_ok = Nat.ltb (4%nat) (length ident_into_ty_arms).
 Proof. reflexivity. Qed.
 
 Lemma lit_scalars_pinned :
@@ -320,17 +329,38 @@ Qed.
 Lemma rv_index_scalar en lk ck : lk <> LPList -> lk <> LPMap -> rv_index en lk ck = 7%nat.
 Proof. intros H1 H2. destruct en; [|reflexivity]. destruct lk; try congruence; destruct ck; reflexivity. Qed.
 
+(* ---------- the conditional repairs are invisible where the classes hold ---------- *)
+Lemma ident_noarc S it target v : is_arc_c (peel S (pfuel S) target) = false ->
+  ident_into_ty S it target v = ident_into_ty0 S it target v.
+Proof. intros H. unfold ident_into_ty. rewrite H, Bool.andb_false_r. reflexivity. Qed.
+
+Lemma ident_eq S it v : ident_into_ty S it it v = (let+ x := v in LOk (x, true)).
+Proof.
+  unfold ident_into_ty, ident_into_ty0. rewrite in_chain_refl.
+  destruct (arc_ok && is_arc_c (peel S (pfuel S) it)); [|reflexivity].
+  destruct (pfuel S + pfuel S)%nat; cbn [in_chain_a]; rewrite cty_eqb_refl; reflexivity.
+Qed.
+
+Lemma item_cty_not_container t : is_container_c (item_cty t) = false.
+Proof. destruct t; reflexivity. Qed.
+
+Lemma float_text_ok s : double_sign_run_ok || bytes_eqb s (sign_norm s) = true -> float_text s = sign_norm s.
+Proof.
+  unfold float_text. destruct double_sign_run_ok; [reflexivity|]. cbn [orb]. intros H. apply bytes_eqb_eq in H. exact H.
+Qed.
+
 Section Main.
   Variable parse_f64 : list byte -> option Z.
   Variable S : lschema.
   Variable cval : nat -> lres gval.
   Variable dflt : rty -> lres gval.
+  Variable cinl : nat -> cty -> lres (gval * bool).
   Variable cv : nat -> option gval.
   Variable empty : ty -> option gval.
   Hypothesis HC : forall c v, const_simple S c = true -> cv c = Some v -> cval c = LOk v.
   Hypothesis HD : forall t d, empty (erase t) = Some d -> dflt t = LOk d.
 
-  Notation low := (lower parse_f64 S cval dflt).
+  Notation low := (lower parse_f64 S cval dflt cinl).
   Notation val := (lit_value parse_f64 S cv empty).
 
   Definition crel (t : rty) (ty : cty) : Prop := ty = item_cty t \/ (ty = CStr /\ is_string_rty t = true).
@@ -342,12 +372,18 @@ Section Main.
   Definition nonpath (l : lit) : bool := match l with LMember _ _ | LConst _ => false | _ => true end.
 
   Lemma pre en l t : nonpath l = true -> pclass_into S en l (item_cty t) = None ->
-    peel S (pfuel S) (item_cty t) = item_cty (rres S t) /\ sresolve S (erase t) = erase (rres S t).
+    peel S (pfuel S) (item_cty t) = item_cty (rres S t) /\ sresolve S (erase t) = erase (rres S t) /\
+    is_arc_c (peel S (pfuel S) (item_cty t)) = false.
   Proof.
-    intros Hn Hp. split; [apply peel_item|]. apply sres_erase. intros Hk.
-    destruct l; try discriminate; cbn [pclass_into] in Hp; unfold pfuel in *;
-      set (p := peel S _ (item_cty t)) in *; clearbody p;
-      destruct p; try discriminate; cbn [ckind] in Hk; try discriminate;
+    intros Hn Hp.
+    assert (Ha : is_arc_c (peel S (pfuel S) (item_cty t)) = false).
+    { destruct l; try discriminate; cbn [pclass_into] in Hp;
+        repeat match type of Hp with context [if ?c then None else Some PCFloatSigns] => destruct c end; try discriminate;
+        destruct (peel S (pfuel S) (item_cty t)); try discriminate; reflexivity. }
+    split; [apply peel_item|]. split; [|exact Ha]. apply sres_erase. intros Hk.
+    unfold pfuel in *. set (p := peel S _ (item_cty t)) in *. clearbody p.
+    destruct p; try discriminate; cbn [ckind] in Hk; try discriminate;
+      try (match type of Hk with context [match ?x with _ => _ end] => destruct x; discriminate end);
       match type of Hk with context [item S ?n] => destruct (item S n) as [[]|]; discriminate end.
   Qed.
 
@@ -364,8 +400,8 @@ Section Main.
   Lemma good_int z : good (LInt z).
   Proof.
     intros en t ty v [->|[-> Hs]] Hv Hp.
-    - destruct (pre en (LInt z) t eq_refl Hp) as (Ep & Es).
-      cbn [lower lit_value pclass_into] in *. rewrite Ep in *. rewrite Es in Hv. clear Ep Es.
+    - destruct (pre en (LInt z) t eq_refl Hp) as (Ep & Es & Ea).
+      cbn [lower lit_value pclass_into] in *. rewrite Ea, Bool.andb_false_r in *. rewrite Ep in *. rewrite Es in Hv. clear Ep Es Ea.
       split_en en (item_cty t);
       (destruct (rres S t); split_item; simp_item Hv Hp; try discriminate;
         repeat match type of Hv with (if ?b then _ else _) = _ => destruct b eqn:?; try discriminate end;
@@ -377,8 +413,8 @@ Section Main.
   Lemma good_bool b : good (LBool b).
   Proof.
     intros en t ty v [->|[-> Hs]] Hv Hp.
-    - destruct (pre en (LBool b) t eq_refl Hp) as (Ep & Es).
-      cbn [lower lit_value pclass_into] in *. rewrite Ep in *. rewrite Es in Hv. clear Ep Es.
+    - destruct (pre en (LBool b) t eq_refl Hp) as (Ep & Es & Ea).
+      cbn [lower lit_value pclass_into] in *. rewrite Ea, Bool.andb_false_r in *. rewrite Ep in *. rewrite Es in Hv. clear Ep Es Ea.
       split_en en (item_cty t);
       (destruct (rres S t); split_item; simp_item Hv Hp; try discriminate; injection Hv as <-; eexists; reflexivity).
     - destruct t; try discriminate; cbn in Hv; discriminate.
@@ -387,19 +423,21 @@ Section Main.
   Lemma good_float s : good (LFloat s).
   Proof.
     intros en t ty v [->|[-> Hs]] Hv Hp.
-    - destruct (pre en (LFloat s) t eq_refl Hp) as (Ep & Es).
-      cbn [lower lit_value pclass_into] in *. rewrite Ep in *. rewrite Es in Hv. clear Ep Es.
+    - destruct (pre en (LFloat s) t eq_refl Hp) as (Ep & Es & Ea).
+      cbn [lower lit_value pclass_into] in *. rewrite Ea, Bool.andb_false_r in *. rewrite Ep in *. rewrite Es in Hv. clear Ep Es Ea.
+      destruct (double_sign_run_ok || bytes_eqb s (sign_norm s)) eqn:Ef; [|discriminate].
+      rewrite (float_text_ok _ Ef).
       split_en en (item_cty t);
       (destruct (rres S t); split_item; simp_item Hv Hp; try discriminate;
-        destruct (parse_f64 s); try discriminate; injection Hv as <-; eexists; reflexivity).
+        destruct (parse_f64 (sign_norm s)); try discriminate; injection Hv as <-; eexists; reflexivity).
     - destruct t; try discriminate; cbn in Hv; discriminate.
   Qed.
 
   Lemma good_string s : good (LString s).
   Proof.
     intros en t ty v [->|[-> Hs]] Hv Hp.
-    - destruct (pre en (LString s) t eq_refl Hp) as (Ep & Es).
-      cbn [lower lit_value pclass_into] in *. rewrite Ep in *. rewrite Es in Hv. clear Ep Es.
+    - destruct (pre en (LString s) t eq_refl Hp) as (Ep & Es & Ea).
+      cbn [lower lit_value pclass_into] in *. rewrite Ea, Bool.andb_false_r in *. rewrite Ep in *. rewrite Es in Hv. clear Ep Es Ea.
       split_en en (item_cty t);
       (destruct (rres S t); split_item; simp_item Hv Hp; try discriminate;
         destruct (idl_unescape s) as [b|] eqn:Eu; try discriminate; injection Hv as <-;
@@ -421,7 +459,7 @@ Section Main.
     destruct (nth_error ms m) as [z|] eqn:Em; try discriminate.
     assert (Hnt : not_nt S (CAdt e)).
     { intros n a Hn. injection Hn as <-. unfold item. rewrite Ei. discriminate. }
-    cbn [pclass_into] in Hp. cbn [lower]. unfold item. rewrite Ei, Em. unfold ident_into_ty.
+    cbn [pclass_into] in Hp. cbn [lower]. unfold item. rewrite Ei, Em.
     destruct Hrel as [->|[-> _]]; [|unfold path_ok, pfuel in Hp; cbn in Hp; unfold item in Hp; rewrite Ei in Hp; cbn in Hp; discriminate].
     pose proof (peel_item S (pfuel S) t) as Ep. fold (rres S t) in Ep.
     destruct (path_ok S (CAdt e) (item_cty t)) eqn:Hok; [|discriminate]. unfold path_ok in Hok. rewrite Ep in Hok.
@@ -432,6 +470,10 @@ Section Main.
       - apply cty_eqb_eq in E1. rewrite <- E1 in Ep. unfold pfuel in Ep. rewrite (peel_enum e ms _ Ei) in Ep.
         rewrite <- Ep, cty_eqb_refl in E2. discriminate.
       - cbn [orb is_str_cty andb] in Hok. unfold ckind, item in Hok. rewrite Ei in Hok. exact Hok. }
+    assert (Hna : is_arc_c (peel S (pfuel S) (item_cty t)) = false).
+    { rewrite Ep. destruct Hfin as [E2|[_ Hint]]; [apply cty_eqb_eq in E2; rewrite <- E2; reflexivity|].
+      destruct (item_cty (rres S t)); try discriminate; reflexivity. }
+    rewrite (ident_noarc _ _ _ _ Hna). unfold ident_into_ty0, ident_conv.
     destruct Hfin as [E2|[E2 Hint]].
     - rewrite <- Ep in E2. apply cty_eqb_eq in E2.
       assert (Hc : in_chain S (pfuel S) (CAdt e) (item_cty t) = true) by (rewrite E2; apply in_chain_peel).
@@ -468,13 +510,6 @@ Section Main.
     destruct (item S n) as [[]|]; discriminate.
   Qed.
 
-  Lemma ident_item_scalar c ct lc : nth_error (ls_consts S) c = Some (ct, lc) ->
-    ident_ty_of_const S c = Some (item_cty ct) -> is_arc_cty (item_cty ct) = false -> scalar_head (erase ct) = true.
-  Proof.
-    unfold ident_ty_of_const. intros -> H Ha. injection H as H.
-    destruct ct; cbn in H, Ha |- *; try discriminate; reflexivity.
-  Qed.
-
   Lemma good_const c : good (LConst c).
   Proof.
     intros en t ty v Hrel Hv Hp. cbn [lit_value] in Hv.
@@ -483,10 +518,10 @@ Section Main.
     cbn [pclass_into] in Hp. cbn [lower].
     destruct (ident_ty_of_const S c) as [it|] eqn:Eit; [|discriminate].
     destruct (path_ok S it ty) eqn:Hok; [clear Hp|discriminate]. unfold path_ok in Hok.
-    unfold ident_into_ty.
     destruct (cty_eqb it ty) eqn:E1.
     { (* the const's type is the target *)
-      apply cty_eqb_eq in E1. subst it. rewrite in_chain_refl.
+      cbn [negb]. rewrite Bool.andb_false_r.
+      apply cty_eqb_eq in E1. subst it. rewrite ident_eq.
       assert (Hs : const_simple S c = true /\ erase ct = erase t).
       { unfold const_simple. rewrite Ec, Eit. destruct Hrel as [->|[-> Hs]].
         - rewrite (ident_eq_item _ _ _ _ _ Ec Eit), cty_eqb_refl. split; reflexivity.
@@ -499,7 +534,22 @@ Section Main.
     destruct Hrel as [->|[-> _]].
     2:{ exfalso. unfold pfuel in Hok. cbn in Hok. rewrite E1 in Hok.
         destruct (is_str_cty it); destruct (ckind S it) as [[]|]; cbn in Hok; discriminate. }
-    pose proof (peel_item S (pfuel S) t) as Ep. fold (rres S t) in Ep. rewrite Ep in *.
+    pose proof (peel_item S (pfuel S) t) as Ep. fold (rres S t) in Ep. rewrite Ep in Hok.
+    (* no const of container type, and no Arc at the end of the chain: the repairs container-const-reference and
+       arc-field-default do not interfere *)
+    assert (Hnc : is_container_c it = false /\ is_arc_c (item_cty (rres S t)) = false).
+    { destruct (cty_eqb it (item_cty (rres S t)) && negb (is_arc_cty (item_cty (rres S t)))) eqn:E2.
+      - apply Bool.andb_true_iff in E2. destruct E2 as [E2 Ea]. apply cty_eqb_eq in E2. apply Bool.negb_true_iff in Ea.
+        rewrite E2. split; [apply item_cty_not_container|]. destruct (item_cty (rres S t)); try discriminate; reflexivity.
+      - cbn [orb] in Hok.
+        destruct (is_str_cty it && (is_faststr_cty (item_cty (rres S t)) || is_string_cty (item_cty (rres S t)))) eqn:E3.
+        + destruct it; try discriminate. split; [reflexivity|]. destruct (item_cty (rres S t)); try discriminate; reflexivity.
+        + cbn [orb] in Hok. destruct (ckind S it) as [[]|] eqn:Eik; try discriminate.
+          split; [destruct it; try reflexivity; cbn in Eik; try discriminate; destruct it; discriminate|].
+          destruct (item_cty (rres S t)); try discriminate; reflexivity. }
+    destruct Hnc as [Hnc Hna]. rewrite Hnc, Bool.andb_false_r. cbn [andb].
+    rewrite (ident_noarc S it (item_cty t) (cval c)) by (rewrite Ep; exact Hna).
+    unfold ident_into_ty0, ident_conv. rewrite Ep.
     destruct (cty_eqb it (item_cty (rres S t)) && negb (is_arc_cty (item_cty (rres S t)))) eqn:E2.
     { (* the const's type is the type at the end of the target's typedef chain *)
       apply Bool.andb_true_iff in E2. destruct E2 as [E2 Ea]. apply cty_eqb_eq in E2. apply Bool.negb_true_iff in Ea.
@@ -513,8 +563,7 @@ Section Main.
         - fold (rres S t). rewrite Hct. reflexivity.
         - fold (rres S t). rewrite Ep. apply not_arc_kind. exact Ea. }
       rewrite Hr in Hv, Eun. unfold sresolve in Hv at 1. rewrite (sres_term _ _ _ Eun) in Hv.
-      rewrite (ident_item_scalar _ _ _ Ec ltac:(rewrite Hct; exact Eit) ltac:(rewrite Hct; exact Ea)), ty_eqb_refl in Hv.
-      cbn [andb] in Hv. rewrite Bool.orb_true_r in Hv.
+      rewrite ty_eqb_refl, Bool.orb_true_r in Hv.
       rewrite (HC _ _ Hs Hv). eexists; reflexivity. }
     cbn [orb] in Hok.
     destruct (is_str_cty it && (is_faststr_cty (item_cty (rres S t)) || is_string_cty (item_cty (rres S t)))) eqn:E3.
@@ -531,7 +580,7 @@ Section Main.
         - fold (rres S t). rewrite Ep. destruct (rres S t); try discriminate; cbn; discriminate. }
       destruct Hr as [Hr Hrt]. rewrite Hr in Hv.
       assert (Hrc : sresolve S (erase ct) = TyString) by (destruct ct; try discriminate; reflexivity).
-      rewrite Hrc in Hv. cbn [scalar_head ty_eqb andb] in Hv. rewrite Bool.orb_true_r in Hv.
+      rewrite Hrc in Hv. cbn [ty_eqb] in Hv. rewrite Bool.orb_true_r in Hv.
       rewrite (HC _ _ Hs Hv).
       destruct Hrt as [-> | ->]; cbn; eexists; reflexivity. }
     cbn [orb] in Hok.
@@ -557,7 +606,7 @@ Section Main.
       rewrite <- EA in Hr. unfold sresolve in Hr. rewrite (sres_term _ _ _ Hun) in Hr.
       destruct (rres S t); discriminate. }
     assert (HB : ty_eqb (TyRef n) (erase (rres S t)) = false) by (destruct (rres S t); try discriminate; reflexivity).
-    rewrite HA, HB, Bool.andb_false_r in Hv. cbn [orb] in Hv.
+    rewrite HA, HB in Hv. cbn [orb] in Hv.
     destruct (cv c) as [[]|] eqn:Ecv; try discriminate.
     destruct (sitem S n) as [[]|]; try discriminate.
     rewrite (HC _ _ Hs Ecv).
@@ -587,8 +636,8 @@ Section Main.
   Lemma good_list els : Forall good els -> good (LList els).
   Proof.
     intros HF en t ty v [->|[-> Hs]] Hv Hp.
-    - destruct (pre en (LList els) t eq_refl Hp) as (Ep & Es).
-      cbn [lower lit_value pclass_into] in *. rewrite Ep in *. rewrite Es in Hv. clear Ep Es.
+    - destruct (pre en (LList els) t eq_refl Hp) as (Ep & Es & Ea).
+      cbn [lower lit_value pclass_into] in *. rewrite Ea, Bool.andb_false_r in *. rewrite Ep in *. rewrite Es in Hv. clear Ep Es Ea.
       split_en en (item_cty t);
       (destruct (rres S t) as [| | | | | | | | | | | | |a|a|a|a a'|a a'|a|n]; split_item; simp_item Hv Hp; try discriminate);
       try (destruct els; [|discriminate]; injection Hv as <-; eexists; reflexivity);
@@ -686,8 +735,8 @@ Section Main.
   Lemma good_map m : Forall good2 m -> good (LMap m).
   Proof.
     intros HF en t ty v [->|[-> Hs]] Hv Hp.
-    - destruct (pre en (LMap m) t eq_refl Hp) as (Ep & Es).
-      cbn [lower lit_value pclass_into] in *. rewrite Ep in *. rewrite Es in Hv. clear Ep Es.
+    - destruct (pre en (LMap m) t eq_refl Hp) as (Ep & Es & Ea).
+      cbn [lower lit_value pclass_into] in *. rewrite Ea, Bool.andb_false_r in *. rewrite Ep in *. rewrite Es in Hv. clear Ep Es Ea.
       split_en en (item_cty t);
       (destruct (rres S t) as [| | | | | | | | | | | | |a|a|a|a a'|a a'|a|n]; split_item; simp_item Hv Hp; try discriminate);
       try (change (match spec_pairs val (erase a) (erase a') m with Some kvs => Some (GMap kvs) | None => None end = Some v) in Hv;
@@ -716,7 +765,7 @@ Section Main.
 
   (* the top of a default: lit_as_rvalue *)
   Lemma top_good l t v : val l (erase t) = Some v -> pclass_top S l (item_cty t) = None ->
-    exists c, lit_as_rvalue parse_f64 S cval dflt l (item_cty t) = LOk (v, c).
+    exists c, lit_as_rvalue parse_f64 S cval dflt cinl l (item_cty t) = LOk (v, c).
   Proof. intros Hv Hp. exact (lit_good l true t _ v (or_introl eq_refl) Hv Hp). Qed.
 End Main.
 
@@ -792,7 +841,7 @@ Section Fuel.
     forall fs out, incl fs fs0 ->
     sempty_fields (lit_value parse_f64 S (fun c => sv parse_f64 S f (SConst c)) (fun t => sv parse_f64 S f (SEmpty t)))
                   (fun t => sv parse_f64 S f (SEmpty t)) fs = Some out ->
-    ev_fields (lit_as_rvalue parse_f64 S (fun c => ev parse_f64 S f (QConst c)) (fun t => ev parse_f64 S f (QDefault t)))
+    ev_fields (lit_as_rvalue parse_f64 S (fun c => ev parse_f64 S f (QConst c)) (fun t => ev parse_f64 S f (QDefault t)) (evi parse_f64 S f))
               (fun t => ev parse_f64 S f (QDefault t)) fs = LOk out.
   Proof.
     intros Hn. induction fs as [|fd r IH]; intros out Hin Hv.
@@ -801,7 +850,7 @@ Section Fuel.
       assert (Hin' : incl r fs0) by (intros x Hx; apply Hin; right; exact Hx).
       destruct (lf_dflt fd) as [l|] eqn:Ed.
       + destruct (lit_value _ _ _ _ l (erase (lf_ty fd))) as [x|] eqn:Ex; [|discriminate].
-        destruct (top_good parse_f64 S _ _ _ _ HC HD l (lf_ty fd) x Ex
+        destruct (top_good parse_f64 S _ _ (evi parse_f64 S f) _ _ HC HD l (lf_ty fd) x Ex
                     (field_class_free _ _ _ _ _ _ Hn (Hin fd (or_introl eq_refl)) Ed)) as (c & ->).
         cbn [lbind fst].
         match type of Hv with match ?g r with _ => _ end = _ => destruct (g r) as [rest|] eqn:Er; [|discriminate] end.
@@ -816,11 +865,19 @@ Section Fuel.
           injection Hv as <-. rewrite (IH rest Hin' eq_refl). reflexivity.
   Qed.
 
+  Lemma ev_const_S f c : ev parse_f64 S (Datatypes.S f) (QConst c) =
+    match nth_error (ls_consts S) c, ident_ty_of_const S c with
+    | Some (_, l), Some ty =>
+        def_lit parse_f64 S (fun c => ev parse_f64 S f (QConst c)) (fun t => ev parse_f64 S f (QDefault t)) (evi parse_f64 S f) l ty
+    | _, _ => LPanic PUnwrap
+    end.
+  Proof. reflexivity. Qed.
+
   Lemma ev_sv f : PC f /\ PD f.
   Proof.
     induction f as [|f [HC HD]]; [split; intros ? ? ?; try intros ?; discriminate|].
     split.
-    - intros c v Hs Hv. cbn [sv] in Hv. cbn [ev].
+    - intros c v Hs Hv. cbn [sv] in Hv. rewrite ev_const_S.
       destruct (nth_error (ls_consts S) c) as [[ct lc]|] eqn:Ec; [|discriminate].
       destruct (ident_ty_of_const S c) as [it|] eqn:Ei; [|unfold const_simple in Hs; rewrite Ec, Ei in Hs; discriminate].
       pose proof (const_class_free_at _ _ _ _ Ec Ei Hs) as Hp.
@@ -830,7 +887,7 @@ Section Fuel.
         - left. apply cty_eqb_eq. exact Eq.
         - right. cbn [orb] in Hs. split; [|exact Hs].
           unfold ident_ty_of_const in Ei. rewrite Ec in Ei. injection Ei as <-. destruct ct; try discriminate; reflexivity. }
-      destruct (lit_good parse_f64 S _ _ _ _ HC HD lc (should_lazy_static S it) ct it v Hrel Hv Hp) as (cc & Hl).
+      destruct (lit_good parse_f64 S _ _ (evi parse_f64 S f) _ _ HC HD lc (should_lazy_static S it) ct it v Hrel Hv Hp) as (cc & Hl).
       destruct (should_lazy_static S it); rewrite Hl; reflexivity.
     - intros t d Hv. cbn [sv] in Hv. cbn [ev]. unfold sempty_step in Hv.
       unfold sresolve in Hv. rewrite sres_rstrip in Hv. fold (pfuel S) in Hv. fold (rstrip S t) in Hv.
@@ -841,7 +898,7 @@ Section Fuel.
         destruct (nth_error (ls_items S) n) as [[fs k a|ms|vs vo k|a]|] eqn:En; try discriminate.
         * match type of Hv with match ?g with _ => _ end = _ => destruct g as [out|] eqn:Ef; [|discriminate] end.
           injection Hv as <-.
-          change (lbind (ev_fields (lit_as_rvalue parse_f64 S (fun c => ev parse_f64 S f (QConst c)) (fun t => ev parse_f64 S f (QDefault t)))
+          change (lbind (ev_fields (lit_as_rvalue parse_f64 S (fun c => ev parse_f64 S f (QConst c)) (fun t => ev parse_f64 S f (QDefault t)) (evi parse_f64 S f))
                                    (fun t => ev parse_f64 S f (QDefault t)) fs) (fun out => LOk (GStruct out [])) = LOk (GStruct out [])).
           rewrite (fields_default f HC HD n fs k a En fs out (incl_refl _) Ef). reflexivity.
         * injection Hv as <-. reflexivity.
